@@ -316,7 +316,50 @@ theorem nfjc_is_pair_sum_partial (N : ℕ) (hN : 0 < N) (wτ : ℕ → ℝ) (e :
     field_simp
     ring
 
+/-! ## DiscreteKoyama: constructor decision and kernel parameters -/
+
+/-- the constructor accepts exactly when `l > σ/2` and `lp ≥ lp_min = 4l³/(4l² − σ²)`; otherwise `ValueError` -/
+theorem koyama_ctor_ok_iff (σ l lp : ℝ) :
+    koyamaCtorOK σ l lp = true ↔ (σ / 2 < l ∧ 4 * l ^ 3 / (4 * l ^ 2 - σ ^ 2) ≤ lp) := by
+  unfold koyamaCtorOK koyamaLpMin
+  simp only [Lit_ofNat, powN_real, Nat.cast_ofNat]
+  by_cases h1 : σ / 2 < l
+  · by_cases h2 : lp < 4 * l ^ 3 / (4 * l ^ 2 - σ ^ 2)
+    · simp [h1, h2]
+    · simp [h1, h2]; exact not_lt.mp h2
+  · simp [h1]
+
+/-- for positive `σ`, `l > σ/2` the minimum persistence length is positive (the denominator `4l² − σ²` is) -/
+theorem koyama_lpmin_pos (σ l : ℝ) (hσ : 0 < σ) (hl : σ / 2 < l) : 0 < koyamaLpMin σ l := by
+  unfold koyamaLpMin
+  simp only [Lit_ofNat, powN_real, Nat.cast_ofNat]
+  have hl0 : 0 < l := by linarith
+  have : 0 < 4 * l ^ 2 - σ ^ 2 := by nlinarith
+  positivity
+
+/-- the kernel parameters are admissible (`B > 0`, `A² ≥ 0` — the hypotheses of the `…_partial` theorems above) exactly when
+the moments satisfy `r2 > 0` and `r2² ≤ r4 < (5/3) r2²`, i.e. `0 < C ≤ 1` -/
+theorem koyama_params_ok (r2 r4 : ℝ) (h2 : 0 < r2) (hlo : r2 ^ 2 ≤ r4) (hhi : 3 * r4 < 5 * r2 ^ 2) :
+    0 < (koyamaParams r2 r4).2.1 ∧ 0 ≤ (koyamaParams r2 r4).2.2 := by
+  unfold koyamaParams
+  simp only [Transc_sqrt, Lit_ofNat, dec_eq, Nat.cast_ofNat, Nat.cast_one]
+  have hr : 0 < r2 * r2 := by positivity
+  have hq1 : 1 ≤ r4 / (r2 * r2) := by rw [le_div_iff₀ hr]; nlinarith
+  have hq2 : r4 / (r2 * r2) < 5 / 3 := by rw [div_lt_iff₀ hr]; nlinarith
+  set x := (5 : ℝ) / 10 ^ 1 * (5 - 3 * (r4 / (r2 * r2))) with hx
+  have hx0 : 0 < x := by rw [hx]; norm_num; linarith
+  have hx1 : x ≤ 1 := by rw [hx]; norm_num; linarith
+  have hC0 : 0 < Real.sqrt x := Real.sqrt_pos.mpr hx0
+  have hC1 : Real.sqrt x ≤ 1 := by rw [← Real.sqrt_one]; exact Real.sqrt_le_sqrt hx1
+  have e : (5 : ℝ) / 10 ^ 1 * (5 - 3 * r4 / (r2 * r2)) = x := by rw [hx]; ring
+  rw [e]
+  constructor
+  · exact Real.sqrt_pos.mpr (by positivity)
+  · have : 0 ≤ 1 - Real.sqrt x := by linarith
+    positivity
+
 /-! non-vacuity -/
 example : (1.0:ℝ) ≠ 0 ∧ (0.5:ℝ) * 1.0 ≠ 0 := by norm_num
+example : (0:ℝ) < 1 ∧ (1:ℝ) ^ 2 ≤ 1.2 ∧ 3 * (1.2:ℝ) < 5 * 1 ^ 2 := by norm_num
 
 end C11
